@@ -3,6 +3,7 @@ import AvroModel.Drv.C17
 import AvroModel.Drv.Enc
 import AvroModel.Drv.CodecDrv
 import AvroModel.Drv.Mal
+import AvroModel.Drv.E2E
 import AvroModel.Drv.Time
 import AvroModel.Drv.Bank
 import AvroModel.Drv.Conc
@@ -20,7 +21,8 @@ def dispatch (prop : String) (op : String) (args : List Sexp) : Verdict :=
   | "C04" => c04 op args
   | "C13" => c13 op args
   | "C06" => c06 op args
-  | "C02" => c02 op args
+  | "C01" => c01 op args
+  | "C02" => if op == "e2e" then c02e2e args else c02 op args
   | "C18" => c18 op args
   | "C19" => c19 op args
   | "C10" => c10 op args
